@@ -57,6 +57,90 @@ fn pt(p: Point<f64>) -> String {
     proto::coord(p.0)
 }
 
+// ------------------------------------------------------------------ deprecated aliases
+//
+// The pre-0.29 trait methods (`rhumb_bearing`, `haversine_distance`, `geodesic_length`, …) are still
+// public entry points to the same measures. Every second case (decided by the bits of the operands)
+// reaches distance / bearing / destination / interpolation / length through them, for the default
+// Haversine, Geodesic and Rhumb spaces; the values go into the same reply fields, so the driver
+// judges them exactly as it judges the `Distance` / `Bearing` / … traits. `haversine_bearing` and
+// `geodesic_bearing` are left out: they document a different range, (-180, 180].
+
+fn via_alias(a: Point<f64>, b: Point<f64>) -> bool {
+    let h = a.x().to_bits() ^ a.y().to_bits().rotate_left(17) ^ b.x().to_bits().rotate_left(31) ^ b.y().to_bits().rotate_left(47);
+    (h.wrapping_mul(0x9E37_79B9_7F4A_7C15) >> 40) & 1 == 1
+}
+
+#[allow(deprecated)]
+fn alias_distance(ms: Ms, a: Point<f64>, b: Point<f64>) -> Option<f64> {
+    use geo::{GeodesicDistance, HaversineDistance, RhumbDistance};
+    match ms {
+        Ms::Hav => Some(a.haversine_distance(&b)),
+        Ms::Geo => Some(a.geodesic_distance(&b)),
+        Ms::Rh => Some(a.rhumb_distance(&b)),
+        _ => None,
+    }
+}
+
+#[allow(deprecated)]
+fn alias_bearing(ms: Ms, a: Point<f64>, b: Point<f64>) -> Option<f64> {
+    use geo::RhumbBearing;
+    match ms {
+        Ms::Rh => Some(a.rhumb_bearing(b)),
+        _ => None,
+    }
+}
+
+#[allow(deprecated)]
+fn alias_destination(ms: Ms, a: Point<f64>, brg: f64, d: f64) -> Option<Point<f64>> {
+    use geo::{GeodesicDestination, HaversineDestination, RhumbDestination};
+    match ms {
+        Ms::Hav => Some(a.haversine_destination(brg, d)),
+        Ms::Geo => Some(a.geodesic_destination(brg, d)),
+        Ms::Rh => Some(a.rhumb_destination(brg, d)),
+        _ => None,
+    }
+}
+
+#[allow(deprecated)]
+fn alias_ratio(ms: Ms, a: Point<f64>, b: Point<f64>, r: f64) -> Option<Point<f64>> {
+    use geo::{GeodesicIntermediate, HaversineIntermediate, RhumbIntermediate};
+    match ms {
+        Ms::Hav => Some(a.haversine_intermediate(&b, r)),
+        Ms::Geo => Some(a.geodesic_intermediate(&b, r)),
+        Ms::Rh => Some(a.rhumb_intermediate(&b, r)),
+        _ => None,
+    }
+}
+
+#[allow(deprecated)]
+fn alias_fill(ms: Ms, a: Point<f64>, b: Point<f64>, max: f64, incl: bool) -> Option<Vec<Point<f64>>> {
+    use geo::{GeodesicIntermediate, HaversineIntermediate, RhumbIntermediate};
+    match ms {
+        Ms::Hav => Some(a.haversine_intermediate_fill(&b, max, incl)),
+        Ms::Geo => Some(a.geodesic_intermediate_fill(&b, max, incl)),
+        Ms::Rh => Some(a.rhumb_intermediate_fill(&b, max, incl)),
+        _ => None,
+    }
+}
+
+#[allow(deprecated)]
+fn alias_length(ms: Ms, g: &Geometry<f64>) -> Option<f64> {
+    use geo::{GeodesicLength, HaversineLength, RhumbLength};
+    Some(match (ms, g) {
+        (Ms::Hav, Geometry::Line(l)) => l.haversine_length(),
+        (Ms::Hav, Geometry::LineString(l)) => l.haversine_length(),
+        (Ms::Hav, Geometry::MultiLineString(l)) => l.haversine_length(),
+        (Ms::Geo, Geometry::Line(l)) => l.geodesic_length(),
+        (Ms::Geo, Geometry::LineString(l)) => l.geodesic_length(),
+        (Ms::Geo, Geometry::MultiLineString(l)) => l.geodesic_length(),
+        (Ms::Rh, Geometry::Line(l)) => l.rhumb_length(),
+        (Ms::Rh, Geometry::LineString(l)) => l.rhumb_length(),
+        (Ms::Rh, Geometry::MultiLineString(l)) => l.rhumb_length(),
+        _ => return None,
+    })
+}
+
 // ------------------------------------------------------------------ generators
 
 /// A longitude in [-180, 180].
@@ -282,16 +366,17 @@ fn eval_pair(t: &mut Toks) -> R<String> {
     let a = Point(t.coord()?);
     let b = Point(t.coord()?);
     let r = t.num()?;
+    let old = via_alias(a, b);
     Ok(with_ms!(ms, m, {
-        let dab = m.distance(a, b);
+        let dab = alias_distance(ms, a, b).filter(|_| old).unwrap_or_else(|| m.distance(a, b));
         let dba = m.distance(b, a);
-        let daa = m.distance(a, a);
+        let daa = alias_distance(ms, a, a).filter(|_| old).unwrap_or_else(|| m.distance(a, a));
         let dbb = m.distance(b, b);
-        let bab = m.bearing(a, b);
+        let bab = alias_bearing(ms, a, b).filter(|_| old).unwrap_or_else(|| m.bearing(a, b));
         let bba = m.bearing(b, a);
-        let dest = m.destination(a, bab, dab);
+        let dest = alias_destination(ms, a, bab, dab).filter(|_| old).unwrap_or_else(|| m.destination(a, bab, dab));
         let ddb = m.distance(dest, b);
-        let mid = m.point_at_ratio_between(a, b, r);
+        let mid = alias_ratio(ms, a, b, r).filter(|_| old).unwrap_or_else(|| m.point_at_ratio_between(a, b, r));
         let dam = m.distance(a, mid);
         let dmb = m.distance(mid, b);
         let m0 = m.point_at_ratio_between(a, b, 0.0);
@@ -313,10 +398,11 @@ fn eval_dest(t: &mut Toks) -> R<String> {
     let brg = t.num()?;
     let dist = t.num()?;
     let k = t.i64()?;
+    let old = via_alias(a, Point::new(brg, dist));
     Ok(with_ms!(ms, m, {
-        let p = m.destination(a, brg, dist);
-        let dap = m.distance(a, p);
-        let bap = m.bearing(a, p);
+        let p = alias_destination(ms, a, brg, dist).filter(|_| old).unwrap_or_else(|| m.destination(a, brg, dist));
+        let dap = alias_distance(ms, a, p).filter(|_| old).unwrap_or_else(|| m.distance(a, p));
+        let bap = alias_bearing(ms, a, p).filter(|_| old).unwrap_or_else(|| m.bearing(a, p));
         let q = m.destination(a, brg + 360.0 * (k as f64), dist);
         let dpq = m.distance(p, q);
         let n = m.destination(a, brg + 180.0, -dist);
@@ -333,6 +419,12 @@ fn eval_dest(t: &mut Toks) -> R<String> {
 fn eval_len(t: &mut Toks) -> R<String> {
     let ms = parse_ms(t)?;
     let g = t.geom()?;
+    let old = {
+        use geo::CoordsIter;
+        let cs: Vec<Coord<f64>> = g.coords_iter().collect();
+        cs.len() >= 2 && via_alias(Point(cs[0]), Point(cs[cs.len() - 1]))
+    };
+    let total = alias_length(ms, &g).filter(|_| old);
     Ok(with_ms!(ms, m, {
         let seg = |ls: &LineString<f64>| -> String {
             let ds: Vec<String> = ls.lines().map(|l| proto::num(m.distance(l.start_point(), l.end_point()))).collect();
@@ -341,13 +433,13 @@ fn eval_len(t: &mut Toks) -> R<String> {
         match &g {
             Geometry::Line(l) => format!(
                 "len {} parts 1 1 {}",
-                proto::num(m.length(l)),
+                proto::num(total.unwrap_or_else(|| m.length(l))),
                 proto::num(m.distance(l.start_point(), l.end_point()))
             ),
-            Geometry::LineString(ls) => format!("len {} parts 1 {}", proto::num(m.length(ls)), seg(ls)),
+            Geometry::LineString(ls) => format!("len {} parts 1 {}", proto::num(total.unwrap_or_else(|| m.length(ls))), seg(ls)),
             Geometry::MultiLineString(mls) => {
                 let parts: Vec<String> = mls.0.iter().map(|ls| seg(ls)).collect();
-                format!("len {} parts {} {}", proto::num(m.length(mls)), mls.0.len(), parts.join(" ")).trim_end().to_string()
+                format!("len {} parts {} {}", proto::num(total.unwrap_or_else(|| m.length(mls))), mls.0.len(), parts.join(" ")).trim_end().to_string()
             }
             _ => return Err("C16.len wants LN, LS or MLS".into()),
         }
@@ -370,7 +462,9 @@ fn eval_along(t: &mut Toks) -> R<String> {
             // decides whether that is a SKIP or a failure of the distance
             return Ok(format!("notrun {}", proto::num(dab)));
         }
-        let pts: Vec<Point<f64>> = m.points_along_line(a, b, max, incl).collect();
+        let pts: Vec<Point<f64>> = alias_fill(ms, a, b, max, incl)
+            .filter(|_| via_alias(a, b))
+            .unwrap_or_else(|| m.points_along_line(a, b, max, incl).collect());
         let cs: Vec<Coord<f64>> = pts.iter().map(|p| p.0).collect();
         let da: Vec<String> = pts.iter().map(|p| proto::num(m.distance(a, *p))).collect();
         format!("d {} pts {} da {}", proto::num(dab), proto::coords(&cs), da.join(" ")).trim_end().to_string()
